@@ -155,3 +155,4 @@ void h_vc_put(void)
 	__CPROVER_assert(0, "canary");
 #endif
 }
+
